@@ -3,9 +3,14 @@
 Tie: correspondence.  A rule program is built with the real `with`-blocks through krrood's public API
 (`an`, `entity`, `let`, `inference`, `Add`, `refinement`, `alternative`, `next_rule`) and evaluated in worker subprocesses;
 the same program is run through the Coq model (Eql/RuleBuild.v heap surgery + Eql/RuleEval.v selector evaluation, `model_sx`)
-and the Spec (Eql/RuleSpec.v `rdr`, `spec_sx`) by vm_compute; `fragW_sx` says whether it lies in the proved fragment Fb.
-Decision: impl != spec inside Fb -> VIOLATION; outside Fb it is an instance of a listed finding only if impl = model.
-A second stream of TWO-variable programs (see "two-variable rule programs" below) is compared implementation vs Spec only.
+and the Spec (Eql/RuleSpec.v `rdr`, `spec_sx`) by vm_compute; `fragW_sx` says whether it lies in the ordered fragments Fx
+(C08_rules / C08_rules_next / C08_rules_next2) and whether it is in the unsettled class `later_ref_next`; every other program
+lies in the fragment of C08_rules_next_all (next_rule anywhere, set of instances).
+Decision: impl != spec -> VIOLATION, except in the unsettled class (model only, never an alarm); a class with an OPEN listed
+finding (none at present) counts instances only when impl = model.
+A second stream of TWO-variable programs (see "two-variable rule programs" below) is compared three ways: implementation,
+two-variable model (Eql/RuleEval2.v) and Spec (Eql/RuleSpec2.v); `frag2_sx` says whether the case lies in the fragment of
+C08_rules2; two-variable programs with next_rule are compared with model and Spec as well.
 
 Case (JSON):  {"world": [[a, b], ...], "prog": RULE}
 RULE        :  {"conds": [ATOM, ...] (>= 1), "tag": int | None, "body": [[KIND, RULE], ...]}   KIND in "R" "A" "N"
@@ -591,7 +596,7 @@ def evaluate(cases, model_ok):
 
 CLASS_TEXT = {
     "K_surgery": "the tree built by refinement()/alternative()/next_rule() is not the written one (C08-a/b/c/f, repaired by /repo 4511011: no open finding)",
-    "K_next": "programs with next_rule (outside the proved fragment; C08-d/e/g repaired by /repo 35fa150, 6dfdafd: no open finding): compared with model and Spec",
+    "K_next": "programs with next_rule outside the ordered fragments Fx: inside C08_rules_next_all (set of instances, next_rule anywhere); C08-d/e/g repaired by /repo 35fa150, 6dfdafd: no open finding; compared with model and Spec (as multisets)",
     "U_unsettled": "next_rule written in the level of a later sibling refinement: reading not settled by the property text; compared with the model only",
 }
 
